@@ -26,7 +26,8 @@ TRUSTED = [
     'C20: the file system is modelled as a finite map path -> content; h5py behaviour (MolecularData) is covered by the save/load oracle only, not modelled',
 ]
 ASSUMPTIONS = [
-    'ASCII strings; coefficients are int / float / complex / numpy.float64 / numpy.complex128, finite, ints below 2**53; indices < 10**6',
+    'ASCII strings; coefficients are int / float / complex / numpy.float64 / numpy.complex128 (through the constructors) or numpy scalars of any kind the tree accepts placed directly into .terms (complex64, clongdouble, float32, float16, longdouble, int32, int64, uint8; dyadic values so that the printed text is exact), finite, ints below 2**53; indices < 10**6',
+    'MolecularData attributes are numbers / arrays, not bools (False is the not-set sentinel of the file format: a bool-valued attribute loads as None)',
     'text round trip: coefficients below EQ_TOLERANCE are not printed by __str__, so equality after a plain-text cycle is required up to such terms (exact for all other terms)',
 ]
 OPEN_STATEMENTS = [
@@ -66,6 +67,56 @@ def rand_coeff(rng, numpy):
     return numpy.complex128(rng.choice([1 + 2j, -0.5j, 0.1 - 0.7j, 3 + 0j]))
 
 
+_DIRECT_TYPES = {}
+
+
+def direct_scalar_types(of):
+    """(T) numpy scalar types that are not accepted by the constructors but can be placed into the public `.terms`
+    dictionary directly; probed once per run on the tree under test (print, both file formats): a type the tree rejects is
+    excluded, never an alarm"""
+    if 'ok' in _DIRECT_TYPES:
+        return _DIRECT_TYPES['ok']
+    import numpy
+    from openfermion.utils import operator_utils as ou
+    cands = {'complex64': (numpy.complex64, 'c'), 'clongdouble': (numpy.clongdouble, 'c'), 'complex128': (numpy.complex128, 'c'),
+             'float32': (numpy.float32, 'f'), 'float16': (numpy.float16, 'f'), 'longdouble': (numpy.longdouble, 'f'),
+             'int64': (numpy.int64, 'i'), 'int32': (numpy.int32, 'i'), 'uint8': (numpy.uint8, 'u'), 'bool_': (numpy.bool_, 'b'),
+             'bool': (bool, 'b')}
+    ok = {}
+    base = tempfile.mkdtemp(prefix='ofv_c20t_', dir=os.environ.get('TMPDIR'))
+    try:
+        for name, (ty, kind) in cands.items():
+            try:
+                op = of.QubitOperator()
+                op.terms[((0, 'X'),)] = ty(1)
+                str(op)
+                for plain in (True, False):
+                    ou.save_operator(op, name, base, allow_overwrite=True, plain_text=plain)
+                    ou.load_operator(name, base, plain_text=plain)
+                ok[name] = (ty, kind)
+            except Exception:  # noqa: BLE001
+                pass
+    finally:
+        shutil.rmtree(base, ignore_errors=True)
+    _DIRECT_TYPES['ok'] = ok
+    return ok
+
+
+def rand_direct_coeff(rng, types):
+    """a dyadic value (exact in every candidate type and in its printed form) of one of the accepted numpy scalar types"""
+    name = rng.choice(sorted(types))
+    ty, kind = types[name]
+    if kind == 'c':
+        return ty(rng.choice([1 + 2j, -0.5j, 0.25 + 0.75j, -3 - 0.125j, 2j, 1.5 + 0j, -1 + 1j]))
+    if kind == 'f':
+        return ty(rng.choice([0.5, -1.25, 3.0, 0.375, 2.0 ** -10, -7.0]))
+    if kind == 'i':
+        return ty(rng.choice([3, -2, 7, 1, -100]))
+    if kind == 'u':
+        return ty(rng.choice([3, 2, 7, 1, 200]))
+    return ty(True)
+
+
 def rand_index(rng):
     k = rng.random()
     if k < 0.6:
@@ -91,9 +142,12 @@ def rand_operator(rng, of, numpy, cls, kind=None):
         return C((), rand_coeff(rng, numpy))
     if kind == 'single':
         return C(rand_term(rng, cls), rand_coeff(rng, numpy))
-    n = rng.randint(1, 5)
+    n = rng.randint(1, 5) if rng.random() < 0.93 else rng.randint(17, 40)      # (B) also more than 16 terms
+    types = direct_scalar_types(of)
     for _ in range(n):
         c = rand_coeff(rng, numpy)
+        if types and kind != 'tiny' and rng.random() < 0.2:
+            c = rand_direct_coeff(rng, types)           # (T) numpy scalar stored directly in .terms
         if kind == 'tiny':
             c = rng.choice([1e-10, -3e-09, 9.9e-09, 1e-12j, complex(1e-9, -1e-9)])
         t = C(rand_term(rng, cls), 1.0)
@@ -183,11 +237,15 @@ def stream_text(ctx, only_ops=None):
     printed = ctx.driver.run([{'op': 'c20.print', 'cls': cls, 'entries': entries_of(cls, op)} for cls, op in cases])
     strs = []
     for (cls, op), mp in zip(cases, printed):
-        c = {'cls': cls, 'terms': entries_of(cls, op)}
+        c = {'cls': cls, 'terms': entries_of(cls, op), 'types': type_names(op)}
         s.case(c)
         s.count('class:' + cls)
         try:
+            snap = [(t, type(v), exact(v)) for t, v in op.terms.items()]
             text = str(op)
+            # (S) printing twice gives the same text and does not touch the operator
+            if str(op) != text or repr(op) != text or [(t, type(v), exact(v)) for t, v in op.terms.items()] != snap:
+                s.violate('str(op) is not repeatable or modifies the operator', c, None)
         except Exception as e:  # noqa: BLE001
             s.violate('str(op) raised', c, repr(e))
             strs.append(None)
@@ -206,6 +264,15 @@ def stream_text(ctx, only_ops=None):
         ir, op2 = impl_parse(cls_of(of, cls), cls, text)
         if not same_result(ir, mo):
             s.disagree('Cls(str(op))', c, ir, mo)
+        if op2 is not None:
+            # (S) constructing twice around an in-place edit of the first operator gives the same terms
+            first = exact_terms(op2)
+            op2 *= 2.0
+            op2.terms[()] = 3.0
+            _, op2b = impl_parse(cls_of(of, cls), cls, text)
+            if op2b is None or exact_terms(op2b) != first or op2b is op2:
+                s.violate('the string constructor is affected by edits of an operator it returned earlier', c, None)
+            op2 = op2b
         if any(not is_small(v) for v in op.terms.values()):
             s.count('oracle:parse(print)')
             if op2 is None:
@@ -284,6 +351,9 @@ def stream_files(ctx):
                     steps.append(['save', cls, op, rng.choice(names), rng.random() < 0.5, rng.random() < 0.5])
                 else:
                     steps.append(['load', rng.choice(names), rng.random() < 0.5])
+                if rng.random() < 0.2 and steps[-1][0] == 'save':
+                    steps.append(['modify', steps[-1][3], steps[-1][5]])
+                    steps.append(['load', steps[-2][3], steps[-2][5]])
                 if rng.random() < 0.25 and steps[-1][0] == 'save':
                     # save -> load -> save again -> load again on the same name and format
                     _, cls, op, name, ow, plain = steps[-1]
@@ -362,7 +432,9 @@ def file_path_and_rejections(ctx, s, of, ou, base):
 
 def run_history(ctx, s, of, ou, d, steps):
     """execute on the real code, then replay on the Model with the texts / tables of the real run"""
-    abstract = {}          # normalised name -> (plain, cls, operator saved)
+    import copy
+    abstract = {}          # normalised name -> (plain, cls, copy of the operator as it was when saved)
+    live = {}              # normalised name -> (cls, the operator object that was saved)
     last_loaded = None
     results = []
     msteps = []
@@ -376,11 +448,23 @@ def run_history(ctx, s, of, ou, d, steps):
                 continue
             cls, op = last_loaded
             st = ['save', cls, op, st[1], True, st[2]]
+        if st[0] == 'modify':
+            # (S) edit the operator object that was saved last under this name in place and save it again: a later load
+            # must return the NEW content, files written earlier from the same object keep the old one
+            key = norm_name(st[1])
+            if key not in live:
+                continue
+            cls, op = live[key]
+            op *= 2.0
+            op += cls_of(of, cls)((), 0.5)
+            st = ['save', cls, op, st[1], True, st[2]]
         if st[0] == 'save':
             _, cls, op, name, ow, plain = st
             case['steps'].append(['save', cls, entries_of(cls, op), name, ow, plain])
+            case.setdefault('types', []).append(type_names(op))
             msteps.append(['save', cls, entries_of(cls, op), name, d, ow, plain])
             texts.append(str(op))
+            snap_terms = [(t, type(v), exact(v)) for t, v in op.terms.items()]
             try:
                 ou.save_operator(op, name, d, allow_overwrite=ow, plain_text=plain)
                 res = {'ok': None}
@@ -390,6 +474,8 @@ def run_history(ctx, s, of, ou, d, steps):
                 res = {'error': type(e).__name__}
             after = dir_state(d)
             key = norm_name(name)
+            if [(t, type(v), exact(v)) for t, v in op.terms.items()] != snap_terms:
+                s.violate('save_operator modified the operator it was given', case, {'step': len(results)})
             if key in before and not ow:
                 s.count('oracle:overwrite-guard')
                 if 'error' not in res:
@@ -400,7 +486,8 @@ def run_history(ctx, s, of, ou, d, steps):
                 if 'error' in res:
                     s.violate('save_operator failed on an admissible operator', case, {'step': len(results), 'error': res})
                 else:
-                    abstract[key] = (plain, cls, op)
+                    abstract[key] = (plain, cls, copy.deepcopy(op))
+                    live[key] = (cls, op)
                     changed = [f for f in set(before) | set(after) if before.get(f) != after.get(f) and f != key]
                     if changed:
                         s.violate('save_operator changed a file other than its target', case, {'step': len(results), 'files': changed})
@@ -413,6 +500,15 @@ def run_history(ctx, s, of, ou, d, steps):
                 cls2 = {of.FermionOperator: 'fermion', of.BosonOperator: 'boson', of.QubitOperator: 'qubit',
                         of.QuadOperator: 'quad'}.get(type(op2))
                 res = {'ok': enc_op(cls2, op2.terms), 'cls': cls2}
+                # (S) a second load around an in-place edit of the first result gives the same operator, no aliasing
+                first = exact_terms(op2)
+                op2 *= 3.0
+                op2.terms[()] = 11.0
+                op3 = ou.load_operator(name, d, plain_text=plain)
+                if exact_terms(op3) != first or op3 is op2 or any(op3 is o for _, o in live.values()):
+                    s.violate('a second load_operator is affected by edits of the first result (or aliases an operator)', case,
+                              {'step': len(results)})
+                op2 = op3
                 last_loaded = (cls2, op2)
             except FileNotFoundError:
                 res, op2 = {'error': 'FileNotFoundError'}, None
@@ -482,7 +578,7 @@ def stream_molecule(ctx):
                 geom = 'water'           # a geometry may also be given by name (string)
             mult = 1 if isinstance(geom, str) else \
                 rng.choice([1, 3]) if sum({'H': 1, 'Li': 3, 'O': 8, 'He': 2}[a] for a, _ in geom) % 2 == 0 else 2
-            fn = os.path.join(base, 'mol%d' % k)
+            fn = os.path.join(base, 'mol%d' % k) + ('.hdf5' if k == 3 else '')
             desc = rng.choice(['', 'test', 'r=0.7', 'a b'])
             c = {'geometry': geom, 'multiplicity': mult, 'description': desc}
             try:
@@ -494,22 +590,51 @@ def stream_molecule(ctx):
             want = {}
             for a in scalars:
                 if rng.random() < 0.5 or k < 2:
-                    want[a] = 0.0 if k == 0 else rng.choice([-1.1, 0.0, 2.5, -74.96, rng.uniform(-100, 0)])
+                    v = 0.0 if k == 0 else rng.choice([-1.1, 0.0, 2.5, -74.96, rng.uniform(-100, 0), 1e-07, -3.5e-05])   # (B) small values
+                    # (T) Python / numpy scalar types (bool is excluded: False is the "not set" sentinel of the file format)
+                    ty = rng.choice(['float', 'float', 'float64', 'float32', 'int', 'int64'])
+                    if ty == 'float64':
+                        v = numpy.float64(v)
+                    elif ty == 'float32':
+                        v = numpy.float32(round(v * 8) / 8)
+                    elif ty == 'int':
+                        v = int(v)
+                    elif ty == 'int64':
+                        v = numpy.int64(int(v))
+                    want[a] = v
             for a in ints:
                 if rng.random() < 0.5 or k < 2:
-                    want[a] = 0 if k == 0 else rng.choice([0, 1, 2, 4, 10])
+                    v = 0 if k == 0 else rng.choice([0, 1, 2, 4, 10, 300])
+                    want[a] = rng.choice([int, int, numpy.int64, numpy.int32, numpy.uint16, float])(v)
             for a, rank in arrays.items():
                 if rng.random() < 0.4:
-                    want[a] = numpy.array([rng.uniform(-1, 1) for _ in range(n ** rank)]).reshape((n,) * rank)
+                    nn = n if rank == 4 else rng.choice([n, n, 5])          # (B) more than 16 entries
+                    shape = (nn,) * rank
+                    kind = rng.choice(['float64', 'float64', 'float32', 'int64', 'complex128', 'fortran', 'strided', 'small'])
+                    A = numpy.array([rng.uniform(-1, 1) for _ in range(nn ** rank)]).reshape(shape)
+                    if kind == 'float32':
+                        A = (numpy.round(A * 64) / 64).astype(numpy.float32)
+                    elif kind == 'int64':
+                        A = numpy.round(A * 10).astype(numpy.int64)
+                    elif kind == 'complex128':
+                        A = A + 1j * A[::-1]                                 # (A) complex, non-Hermitian
+                    elif kind == 'fortran':
+                        A = numpy.asfortranarray(A)
+                    elif kind == 'strided':
+                        A = numpy.array([rng.uniform(-1, 1) for _ in range((2 * nn) ** rank)]).reshape((2 * nn,) * rank)[(slice(None, None, 2),) * rank]
+                    elif kind == 'small':
+                        A = A * 1e-6
+                    want[a] = A
             if rng.random() < 0.4:
                 want['general_calculations'] = {('calc%d' % i): rng.uniform(-2, 2) for i in range(rng.randint(1, 3))}
+            import copy
             for a, v in want.items():
-                setattr(m, a, v)
+                setattr(m, a, copy.deepcopy(v))
             c['assigned'] = {a: (v.tolist() if hasattr(v, 'tolist') else v) for a, v in want.items()}
             s.case(c)
             try:
                 m.save()
-                m2 = MolecularData(filename=fn)
+                m2 = MolecularData(filename=fn[:-5] if k == 3 else (fn + '.hdf5' if k == 4 else fn))
                 m2.save()
                 m3 = MolecularData(filename=fn)
                 m3.save()
@@ -576,35 +701,52 @@ def stream_molecule(ctx):
                     s.violate('MolecularData save/load does not return the atoms attribute (list of atomic symbols)', c,
                               {'cycle': label, 'saved': list(m.atoms), 'loaded': repr(mm.atoms)})
                     break
+            # (S) save() must not modify the object; editing attributes in place and saving again must be visible to a
+            # fresh load (and only then)
+            try:
+                import copy
+                for a, v in want.items():
+                    now = getattr(m, a)
+                    same = (now == v) if isinstance(v, dict) else numpy.array_equal(numpy.asarray(now), numpy.asarray(v))
+                    if not same or (hasattr(v, 'dtype') and getattr(now, 'dtype', None) != v.dtype):
+                        s.violate('MolecularData.save() modified an attribute of the object', c, {'attribute': a})
+                        break
+                edited = {}
+                for a, v in want.items():
+                    if isinstance(v, numpy.ndarray) and v.dtype.kind == 'f':
+                        getattr(m, a)[...] = getattr(m, a) * 2 + 1        # in-place edit of the array the object holds
+                        edited[a] = numpy.array(getattr(m, a))
+                if 'hf_energy' in want:
+                    m.hf_energy = float(want['hf_energy']) + 1.0
+                    edited['hf_energy'] = m.hf_energy
+                stale = MolecularData(filename=m2.filename)
+                for a, v in edited.items():
+                    old = want[a]
+                    if not numpy.array_equal(numpy.asarray(getattr(stale, a)), numpy.asarray(old)) and not numpy.array_equal(numpy.asarray(old), numpy.asarray(v)):
+                        s.violate('editing an object in memory changed what is loaded from its file before save()', c, {'attribute': a})
+                        break
+                if edited:
+                    s.count('oracle:(S) edit-and-save')
+                    m.save()
+                    fresh = MolecularData(filename=m2.filename)
+                    for a, v in edited.items():
+                        if not numpy.array_equal(numpy.asarray(getattr(fresh, a)), numpy.asarray(v)):
+                            s.violate('MolecularData saved after an in-place edit does not load the new content', c,
+                                      {'attribute': a, 'loaded': repr(getattr(fresh, a))[:200], 'expected': repr(v)[:200]})
+                            break
+            except Exception as e:  # noqa: BLE001
+                s.violate('MolecularData edit-and-save raised', c, repr(e))
     finally:
         shutil.rmtree(base, ignore_errors=True)
     return s
 
 
 def classify(v):
-    c = v.get('input') or {}
-    if v.get('stream') == 'molecular-data' and isinstance(c.get('geometry'), str) \
-            and v.get('what', '').startswith('MolecularData save/load does not return the atoms attribute'):
-        return 'C20-moldata-named-geometry-atoms'
     return None
 
 
 def probe_known(ctx, k):
-    if k['id'] != 'C20-moldata-named-geometry-atoms':
-        return False
-    from openfermion.chem import MolecularData
-    base = tempfile.mkdtemp(prefix='ofv_c20p_', dir=os.environ.get('TMPDIR'))
-    try:
-        fn = os.path.join(base, 'named')
-        m = MolecularData('water', 'sto-3g', 1, filename=fn)
-        m.save()
-        a = MolecularData(filename=fn).atoms
-        a = a.tolist() if hasattr(a, 'tolist') else a
-        return a != []
-    except Exception:  # noqa: BLE001
-        return True
-    finally:
-        shutil.rmtree(base, ignore_errors=True)
+    return False
 
 
 def coeff_of_text(txt):
@@ -617,15 +759,28 @@ def coeff_of_text(txt):
     raise ValueError(txt)
 
 
-def operator_of_entries(of, cls, entries):
+def operator_of_entries(of, cls, entries, types=None):
+    """rebuild an operator from its protocol entries; `types`: the recorded coefficient type names (numpy scalars are restored)"""
+    import numpy
     from common import dec_term
     op = cls_of(of, cls)()
-    for t, _, txt in entries:
-        op.terms[dec_term(cls, t)] = coeff_of_text(txt)
+    for k, (t, _, txt) in enumerate(entries):
+        v = coeff_of_text(txt)
+        name = types[k] if types and k < len(types) else None
+        if name and name not in ('int', 'float', 'complex') and hasattr(numpy, name):
+            try:
+                v = getattr(numpy, name)(v)
+            except Exception:  # noqa: BLE001
+                pass
+        op.terms[dec_term(cls, t)] = v
     return op
 
 
-def history_violations(ctx, case_steps):
+def type_names(op):
+    return [type(v).__name__ for v in op.terms.values()]
+
+
+def history_violations(ctx, case_steps, types=None):
     """run a recorded history (protocol form) on the real code in a fresh directory -> violations"""
     of = ctx.of
     from openfermion.utils import operator_utils as ou
@@ -633,9 +788,12 @@ def history_violations(ctx, case_steps):
     base = tempfile.mkdtemp(prefix='ofv_c20r_', dir=os.environ.get('TMPDIR'))
     try:
         steps = []
+        k = 0
         for st in case_steps:
             if st[0] == 'save':
-                steps.append(['save', st[1], operator_of_entries(of, st[1], st[2]), st[3], st[4], st[5]])
+                steps.append(['save', st[1], operator_of_entries(of, st[1], st[2], types[k] if types and k < len(types) else None),
+                              st[3], st[4], st[5]])
+                k += 1
             else:
                 steps.append(['load', st[1], st[2]])
         run_history(ctx, s, of, ou, base, steps)
@@ -649,36 +807,44 @@ def shrink(ctx, v):
     case = v.get('input') or {}
     if v.get('stream') != 'file-histories' or 'steps' not in case:
         return v
-    steps = list(case['steps'])
+    tys = list(case.get('types') or [])
+    pairs, k = [], 0
+    for st in case['steps']:
+        if st[0] == 'save':
+            pairs.append((st, tys[k] if k < len(tys) else None))
+            k += 1
+        else:
+            pairs.append((st, None))
 
-    def fails(st):
+    def fails(ps):
         try:
-            return [w for w in history_violations(ctx, st) if w['what'] == v['what']]
+            return [w for w in history_violations(ctx, [p_[0] for p_ in ps], [p_[1] for p_ in ps if p_[0][0] == 'save'])
+                    if w['what'] == v['what']]
         except Exception:  # noqa: BLE001
             return []
-    if not fails(steps):
+    if not fails(pairs):
         return v
     changed = True
-    while changed and len(steps) > 1:
+    while changed and len(pairs) > 1:
         changed = False
-        for i in range(len(steps)):
-            cand = steps[:i] + steps[i + 1:]
+        for i in range(len(pairs)):
+            cand = pairs[:i] + pairs[i + 1:]
             if cand and fails(cand):
-                steps, changed = cand, True
+                pairs, changed = cand, True
                 break
-    for i, st in enumerate(steps):
+    for i in range(len(pairs)):
+        st, ty = pairs[i]
         if st[0] == 'save':
-            ents = list(st[2])
             j = 0
-            while j < len(ents):
-                cand_e = ents[:j] + ents[j + 1:]
-                cand = steps[:i] + [[st[0], st[1], cand_e] + st[3:]] + steps[i + 1:]
+            while j < len(st[2]):
+                st2 = [st[0], st[1], st[2][:j] + st[2][j + 1:]] + st[3:]
+                ty2 = None if ty is None else ty[:j] + ty[j + 1:]
+                cand = pairs[:i] + [(st2, ty2)] + pairs[i + 1:]
                 if fails(cand):
-                    ents, steps = cand_e, cand
-                    st = steps[i]
+                    pairs, st, ty = cand, st2, ty2
                 else:
                     j += 1
-    w = fails(steps)
+    w = fails(pairs)
     return w[0] if w else v
 
 
@@ -693,7 +859,7 @@ def replay(ctx, payload):
     ctx.seed, ctx.tier = payload.get('seed', ctx.seed), payload.get('tier', ctx.tier)
     if stream == 'print-parse':
         if 'terms' in case:
-            op = operator_of_entries(of, case['cls'], case['terms'])
+            op = operator_of_entries(of, case['cls'], case['terms'], case.get('types'))
         elif 'printed' in case:
             try:
                 op = cls_of(of, case['cls'])(case['printed'])
@@ -706,7 +872,7 @@ def replay(ctx, payload):
             return None
         return not stream_text(ctx, only_ops=[(case['cls'], op)]).violations
     if stream == 'file-histories' and 'steps' in case:
-        return not history_violations(ctx, case['steps'])
+        return not history_violations(ctx, case['steps'], case.get('types'))
     runner = {'file-histories': stream_files, 'molecular-data': stream_molecule}.get(stream)
     if runner is None:
         return None
